@@ -665,6 +665,95 @@ theorem history_noncaller_safe (ops : List HOp) (w : World) (a : Addr) (ha : ∀
     simp only [runH, List.foldl_cons, totalMoved] at hsh ⊢
     omega
 
+/-- the fractional shares ("dust", 10^-18 units) of an account other than the direct caller are not touched by any call
+(specification level): only `delegateV2` / `undelegateV2` / `redelegateV2` produce or consume fractions, and only in the
+caller's own delegation; the share-denominated methods move whole shares -/
+theorem specEffect_dust (c : Addr) (call : Call) (w w' : World) (h : specEffect c call w = .ok w') (a : Addr) (ha : a ≠ c) :
+    w'.dust a = w.dust a := by
+  have hmove : ∀ (w0 w1 : World) p to s, moveShares w0 p to s = .ok w1 → w1.dust = w0.dust := by
+    intro w0 w1 p to s hm
+    unfold moveShares at hm
+    split at hm
+    · cases hm
+    · split at hm <;> (cases hm; rfl)
+  cases call with
+  | approve sp s => simp only [specEffect, effect] at h; cases h; rfl
+  | transferFromShares f t s =>
+    simp only [specEffect, effect, ↓reduceIte] at h
+    split at h
+    · cases h
+    · rw [hmove { w with allow := upd2 w.allow f c (w.allow f c - s) } _ _ _ _ h]
+  | transferShares t s => simp only [specEffect, effect] at h; rw [hmove _ _ _ _ _ h]
+  | view n => simp only [specEffect, effect] at h; cases h; rfl
+  | executeClaim n => simp only [specEffect, effect] at h; cases h; rfl
+  | withdraw =>
+    simp only [specEffect, effect] at h
+    split at h
+    · cases h
+    · cases h; rfl
+  | delegate x =>
+    simp only [specEffect, effect] at h
+    split at h
+    · cases h
+    · split at h
+      · cases h
+      · cases h; simp [World.setRaw, claim, upd, ha]
+  | undelegate x =>
+    simp only [specEffect, effect] at h
+    split at h
+    · cases h
+    · cases h; simp [World.setRaw, claim, upd, ha]
+  | redelegate x =>
+    simp only [specEffect, effect] at h
+    split at h
+    · cases h
+    · split at h
+      · cases h
+      · cases h; simp [World.setRaw, claim, upd, ha]
+  | crossChain x y r =>
+    simp only [specEffect, effect] at h
+    split at h
+    · cases h
+    · cases h; rfl
+  | bridgeCall r t v =>
+    simp only [specEffect, effect] at h
+    split at h
+    · cases h
+    · cases h; rfl
+  | increaseFee i f =>
+    simp only [specEffect, effect] at h
+    split at h
+    · cases h
+    · cases h; rfl
+  | cancelSend i =>
+    simp only [specEffect, effect] at h
+    split at h
+    · cases h
+    · split at h
+      · cases h
+      · cases h; rfl
+
+/-- HISTORIES on slashed validators (round 4): over EVERY history of precompile calls by others — any callers, call kinds,
+governance settings, on a validator with any exchange rate — the fractional part of `a`'s delegation is exactly what it
+was; with `history_noncaller_safe` (whole shares leave only within allowances): the delegation of a non-caller, counted
+in 10^-18 share units, is reduced by nothing but allowance-covered `transferFromShares` -/
+theorem history_noncaller_dust_unchanged (ops : List HOp) (w : World) (a : Addr) (ha : ∀ o ∈ ops, o.env.caller ≠ a) :
+    (runH ops w).dust a = w.dust a := by
+  induction ops generalizing w with
+  | nil => rfl
+  | cons o r ih =>
+    have hstep : (applyOp w o).dust a = w.dust a := by
+      rcases applyOp_spec w o with ⟨_, hw⟩ | ⟨_, heff, _, _⟩ | ⟨_, hw, _⟩
+      · rw [hw]
+      · exact specEffect_dust _ _ _ _ heff a (Ne.symm (ha o (List.mem_cons_self ..)))
+      · rw [hw]
+    have := ih (applyOp w o) (fun o' ho' => ha o' (List.mem_cons_of_mem _ ho'))
+    simp only [runH, List.foldl_cons] at this ⊢
+    rw [this, hstep]
+-- non-vacuity: a history in which account 1 delegates on a validator slashed by half while account 4 never calls
+example : (∀ o ∈ [(⟨.call, [], "a".toList, "b".toList, ⟨1, 1, 6, 0⟩, .delegate 3⟩ : HOp)], o.env.caller ≠ 4) := by
+  intro o ho; simp at ho; subst ho; decide
+
 /-- HISTORIES, corollary: an account that never calls and has granted no allowance loses nothing at all — no share, no
 coin, no reward, no unbonding entry, no queued withdrawal — under any history of precompile calls by others, and
 still has no allowance granted at the end (nobody can approve on its behalf) -/
